@@ -60,6 +60,7 @@ func NewAdversary(w *World, p *Profile) *Adversary {
 		{"hugeView", 2, a.hugeView},
 		{"badBlock", 4, a.badBlock},
 		{"honestLike", 6, a.honestLike},
+		{"crossInstance", 5, a.crossInstance},
 	}
 	for i := range a.strat {
 		if p.AdvWeights != nil {
@@ -115,6 +116,18 @@ func (a *Adversary) at(h uint64) []*Node {
 	for _, id := range a.w.Order {
 		n := a.w.Nodes[id]
 		if uint64(n.St.Height()) == h {
+			out = append(out, n)
+		}
+	}
+	return out
+}
+
+// below: correct nodes still deciding a lower height
+func (a *Adversary) below(h uint64) []*Node {
+	var out []*Node
+	for _, id := range a.w.Order {
+		n := a.w.Nodes[id]
+		if uint64(n.St.Height()) < h {
 			out = append(out, n)
 		}
 	}
@@ -324,9 +337,16 @@ func (a *Adversary) support(h uint64) bool {
 	p := props[a.r.Intn(len(props))]
 	inst := uint64(spi.InstanceId)
 	did := false
+	targets := a.at(h)
+	if a.r.Intn(4) == 0 { // also nodes that lag behind: the messages sit in their future cache
+		targets = append(targets, a.below(h)...)
+		if a.r.Intn(2) == 0 {
+			inst = uint64(spi.OtherInstanceId)
+		}
+	}
 	for _, b := range bm {
-		for _, n := range a.at(h) {
-			k := fmt.Sprintf("sup|%s|%s|%d|%d|%s", b, n.Id, h, p.v, p.hash)
+		for _, n := range targets {
+			k := fmt.Sprintf("sup|%s|%s|%d|%d|%s|%d", b, n.Id, h, p.v, p.hash, inst)
 			if a.done[k] || a.r.Intn(3) == 0 {
 				continue
 			}
@@ -362,6 +382,9 @@ func (a *Adversary) badBlock(h uint64) bool {
 		return false
 	}
 	E := a.newBlock(h, true)
+	if a.r.Intn(3) == 0 { // a good-looking block of another height
+		E = a.newBlock(h+1+uint64(a.r.Intn(2)), false)
+	}
 	inst := uint64(spi.InstanceId)
 	if v == 0 || a.r.Intn(2) == 0 {
 		a.sendSome(leader, a.at(h), a.mkRefMsg(ref.EnvPP, ref.PP, leader, inst, h, v, spi.HashOf(E), E), 90)
@@ -655,7 +678,7 @@ func (a *Adversary) vcGames(h uint64) bool {
 	}
 	E := a.newBlock(h, false)
 	var raw *interfaces.ConsensusRawMessage
-	switch a.r.Intn(7) {
+	switch a.r.Intn(8) {
 	case 0: // genuine proof, no block
 		if gp == nil {
 			return false
@@ -675,6 +698,12 @@ func (a *Adversary) vcGames(h uint64) bool {
 		raw = ref.RawVoteMsg(a.mkVote(b, inst, h, v, nil), E)
 	case 4: // forged proof with its block
 		raw = ref.RawVoteMsg(a.mkVote(b, inst, h, v, a.forgeProof(h, v-1, E)), E)
+	case 7: // spliced proof: the Byzantine leader's own PREPREPARE ref for hash X over genuine PREPAREs for hash Y
+		sp := a.splicedProof(h, v, E)
+		if sp == nil {
+			return false
+		}
+		raw = ref.RawVoteMsg(a.mkVote(b, inst, h, v, sp), E)
 	case 5: // wrong target leader
 		other := c.Leader(v + 1)
 		a.send(b, other, ref.RawVoteMsg(a.mkVote(b, inst, h, v, nil), nil))
@@ -948,4 +977,162 @@ func minInt(a, b int) int {
 		return a
 	}
 	return b
+}
+
+
+// signOther models the parallel consensus instance that runs with the same member keys:
+// signatures of *any* member over headers of the OTHER instance are public knowledge.
+func (a *Adversary) signOther(id string, h uint64, raw []byte) []byte {
+	return a.w.Keys.SignCM(id, h, raw)
+}
+
+// crossInstance replays material of the other instance (same keys) into this one, at the
+// current height of some node or into the future cache of a lagging one.
+func (a *Adversary) crossInstance(h uint64) bool {
+	c := a.w.Comm(h)
+	oi := uint64(spi.OtherInstanceId)
+	targets := a.at(h)
+	if a.r.Intn(2) == 0 {
+		targets = append(targets, a.below(h)...)
+	}
+	if len(targets) == 0 {
+		return false
+	}
+	vs := a.views(h)
+	v := vs[a.r.Intn(len(vs))]
+	leader := c.Leader(v)
+	E := a.newBlock(h, false)
+	hash := spi.HashOf(E)
+	if ps := a.proposals(h); len(ps) > 0 && a.r.Intn(2) == 0 {
+		p := ps[a.r.Intn(len(ps))]
+		v, hash, leader = p.v, []byte(p.hash), c.Leader(p.v)
+		if p.blk != nil {
+			E = p.blk
+		}
+	}
+	mk := func(env ref.Env, typ ref.MT, signer string) *interfaces.ConsensusRawMessage {
+		hdr := &ref.Ref{Type: typ, Inst: oi, H: h, V: v, Hash: hash}
+		sg := ref.Sig{Id: signer, Sig: a.signOther(signer, h, hdr.Bytes())}
+		var share []byte
+		if env == ref.EnvC {
+			share = a.w.Keys.Share(signer, h, a.w.SeedBytes(h))
+		}
+		var b interfaces.Block
+		if env == ref.EnvPP {
+			b = E
+		}
+		return ref.RawBlockRefMsg(env, hdr, sg, share, b)
+	}
+	member := string(c.Members[a.r.Intn(c.N())].Id)
+	switch a.r.Intn(4) {
+	case 0: // a full other-instance NEW_VIEW with genuine (other-instance) votes of a quorum
+		if v == 0 {
+			v = 1
+			leader = c.Leader(v)
+		}
+		var votes []*ref.Vote
+		var ids []string
+		for _, m := range c.Members {
+			vt := &ref.Vote{Type: ref.VC, Inst: oi, H: h, V: v}
+			vt.Sender = ref.Sig{Id: string(m.Id), Sig: a.signOther(string(m.Id), h, vt.HeaderBytes())}
+			votes = append(votes, vt)
+			ids = append(ids, string(m.Id))
+			if c.IsQuorum(ids) {
+				break
+			}
+		}
+		emb := &ref.Ref{Type: ref.PP, Inst: oi, H: h, V: v, Hash: hash}
+		embSig := &ref.Sig{Id: leader, Sig: a.signOther(leader, h, emb.Bytes())}
+		sg := ref.Sig{Id: leader, Sig: a.signOther(leader, h, ref.NVHeaderBytes(ref.NV, oi, h, v, votes))}
+		raw := ref.RawNewViewMsg(ref.NV, oi, h, v, votes, sg, emb, embSig, E)
+		for _, n := range targets {
+			a.send(leader, n.Id, raw)
+		}
+	case 1:
+		if v > 0 && !a.allowBare {
+			return false
+		}
+		raw := mk(ref.EnvPP, ref.PP, leader)
+		for _, n := range targets {
+			a.sendRaw(leader, n.Id, raw)
+		}
+	case 2:
+		raw := mk(ref.EnvP, ref.P, member)
+		for _, n := range targets {
+			a.send(member, n.Id, raw)
+		}
+	case 3:
+		raw := mk(ref.EnvC, ref.C, member)
+		for _, n := range targets {
+			a.send(member, n.Id, raw)
+		}
+	}
+	return true
+}
+
+// sendRaw is send without the bare-PREPREPARE filter (other-instance proposals are not the recorded finding).
+func (a *Adversary) sendRaw(from, to string, raw *interfaces.ConsensusRawMessage) {
+	if raw == nil || !a.w.IsCorrect(to) {
+		return
+	}
+	f := a.w.Inject(from, to, raw)
+	if a.r.Intn(10) < 6 {
+		for i := len(a.w.Pool) - 1; i >= 0; i-- {
+			if a.w.Pool[i] == f {
+				a.w.TakeFlight(i)
+				break
+			}
+		}
+		a.w.Deliver(f)
+		a.w.Mon.Stats["delivered adversarial"]++
+	}
+}
+
+
+// splicedProof: for a view pv < v led by a Byzantine member in which correct nodes sent PREPAREs for
+// some hash Y reaching quorum weight together with the leader, a proof whose PREPREPARE ref (signed by
+// that leader) names the hash of blk while the PREPARE ref and its genuine signatures are for Y.
+func (a *Adversary) splicedProof(h, v uint64, blk *spi.Blk) *ref.Proof {
+	c := a.w.Comm(h)
+	inst := uint64(spi.InstanceId)
+	type key struct {
+		v    uint64
+		hash string
+	}
+	sigs := map[key]map[string][]byte{}
+	for _, f := range a.w.Seen {
+		m := f.Msg
+		if m == nil || m.Env != ref.EnvP || m.Type != ref.P || m.H != h || m.V >= v || m.Inst != inst || !a.w.Cfg.Byz[c.Leader(m.V)] {
+			continue
+		}
+		if !a.w.Keys.VerifyCM(m.Sender.Id, h, m.HdrRaw, m.Sender.Sig) || m.Sender.Id == c.Leader(m.V) {
+			continue
+		}
+		k := key{m.V, string(m.Hash)}
+		if sigs[k] == nil {
+			sigs[k] = map[string][]byte{}
+		}
+		sigs[k][m.Sender.Id] = m.Sender.Sig
+	}
+	for k, set := range sigs {
+		leader := c.Leader(k.v)
+		ids := []string{leader}
+		for id := range set {
+			ids = append(ids, id)
+		}
+		if !c.IsQuorum(ids) {
+			continue
+		}
+		pp := &ref.Ref{Type: ref.PP, Inst: inst, H: h, V: k.v, Hash: spi.HashOf(blk)}
+		pr := &ref.Ref{Type: ref.P, Inst: inst, H: h, V: k.v, Hash: []byte(k.hash)}
+		p := &ref.Proof{PPRef: pp, PRef: pr, PPSender: &ref.Sig{Id: leader, Sig: a.sign(leader, h, pp.Bytes())}}
+		sort.Strings(ids)
+		for _, id := range ids {
+			if id != leader {
+				p.PSenders = append(p.PSenders, ref.Sig{Id: id, Sig: set[id]})
+			}
+		}
+		return p
+	}
+	return nil
 }
